@@ -232,6 +232,13 @@ type Hub struct {
 	Events []Event
 }
 
+// Snapshot returns a copy of the events so far.
+func (h *Hub) Snapshot() []Event {
+	h.mu.Lock()
+	defer h.mu.Unlock()
+	return append([]Event{}, h.Events...)
+}
+
 func NewServer(name string, key *RSAKey, store *Store, hub *Hub) (*Server, error) {
 	ln, err := net.Listen("tcp", "127.0.0.1:0")
 	if err != nil {
